@@ -63,6 +63,9 @@ CHECKS = {
  "C19": dict(cat="other", tech="compile-fail / static_assert / SFINAE witnesses with g++ and clang++, compile-time constants read from IR, preprocessor conditional-region equality, wrapper catalogue as declared-and-defined parity witness",
    text="Enumerates the macro-set lattice (each single macro with only its own flag, ladder prefixes, AVX-512 sub-extension combinations, full set) x {explicit, AVEL_AUTO_DETECT} x {g++, clang++} x standards: both public headers must compile; AVEL_AUTO_DETECT must give the same complete Vector<T,N> set and natural/max widths; static_assert witnesses demand exactly the documented widths, alias identities and completeness of vecNx*/vecMx*/mask/arr aliases, sizeof == N*sizeof(T), trivial copyability and mask triviality; every catalogue operation the width-1 vector of an element type offers must compile AND reach no declared-but-undefined avel function for every wider vector; g++ and clang++ must activate the same conditional regions outside AVEL_GCC/AVEL_CLANG blocks.",
    note="g++ 12 / clang++ 14 front ends; NEON/MSVC/ICPX/AVX10 branches cannot be analysed here; the x86-64 baseline makes auto-detect comparison meaningless for macro sets without SSE2 (UNDECIDED)", ref="4/C19", engine="E2-witness"),
+ "C14": dict(cat="other", tech="closed-form summary of div(n, Denominator<T>(d)) from optimised IR; truth-table equivalence with truncating division for the 8-bit types (all 2^16 pairs), boundary-lattice refutation search and UB obligations for wider types; bisimulation of operator forms",
+   text="PARTIAL CLAIM, stated as such. Complete for Denominator<uint8_t>/<int8_t>: the closed form in (n, d) is evaluated on every (n, d) pair of the domain against C++ truncating division (this is the property's own exhaustive quantifier for 8-bit types, applied to the summary, not to the program). For 16/32/64-bit types the same comparison runs on the boundary lattice only: a difference or an undefined operation (signed overflow, over-wide shift) on a valid (n, d) is a refutation with its input; nothing found is UNDECIDED, not a pass. / % /= %= are tied to div by body equality, value() must return d, all members must exist.",
+   note=TB + "; correctness of the Granlund-Montgomery constants beyond 8 bits is NOT decided; one known finding (d = INT32_MIN)", ref="11.2/C14"),
 }
 
 NA = {
@@ -71,7 +74,6 @@ PENDING = "check not built yet in this framework revision (planned, see DESIGN.m
 ALL = ["C%02d" % i for i in range(1, 21)]
 NA_FIXED = {
  "C12": "frexp/ldexp/scalbn/ilogb/logb/frac/fmax/fmin/fdim are long arithmetic emulations on every SIMD type; agreement with <cmath> is a numerical fact about values that no structural rule in reach implies (DESIGN.md section 5)",
- "C14": "correctness of the Granlund-Montgomery constants and the divq precondition are relational numeric facts beyond intervals; shift amounts are object invariants (DESIGN.md section 5)",
 }
 
 def main():
